@@ -1,9 +1,12 @@
 package namer
 
 import (
+	"go/token"
 	"slices"
 	"strconv"
 	"strings"
+	"unicode"
+	"unicode/utf8"
 
 	"github.com/octohelm/gengo/pkg/camelcase"
 	gengotypes "github.com/octohelm/gengo/pkg/types"
@@ -45,6 +48,7 @@ func (tracker *defaultImportTracker) add(path string) {
 
 	for i := range len(parts) {
 		localName := golangTrackerLocalName(parts, i+1)
+		localName = sanitizeLocalName(localName)
 
 		if tracker.checkStd {
 			if p, ok := std.nameToPath[localName]; ok && p != path {
@@ -58,6 +62,50 @@ func (tracker *defaultImportTracker) add(path string) {
 			break
 		}
 	}
+
+	if _, ok := tracker.pathToName[path]; !ok {
+		// every candidate is taken (or reserved for a std package): fall back to a numbered name,
+		// a referenced package must never be left without one
+		base := sanitizeLocalName(golangTrackerLocalName(parts, len(parts)))
+
+		for n := 2; ; n++ {
+			localName := base + strconv.Itoa(n)
+
+			if tracker.checkStd {
+				if p, ok := std.nameToPath[localName]; ok && p != path {
+					continue
+				}
+			}
+
+			if _, ok := tracker.nameToPath[localName]; !ok {
+				tracker.nameToPath[localName] = path
+				tracker.pathToName[path] = localName
+				break
+			}
+		}
+	}
+}
+
+// sanitizeLocalName makes a candidate a valid Go identifier that is not a keyword
+func sanitizeLocalName(name string) string {
+	b := &strings.Builder{}
+	for _, r := range name {
+		if r == '_' || unicode.IsLetter(r) || unicode.IsDigit(r) {
+			b.WriteRune(r)
+		}
+	}
+	name = b.String()
+
+	if name == "" || name == "_" {
+		return "pkg"
+	}
+	if r, _ := utf8.DecodeRuneInString(name); unicode.IsDigit(r) {
+		return "_" + name
+	}
+	if token.IsKeyword(name) {
+		return "_" + name
+	}
+	return name
 }
 
 func toLocalName(parts ...string) string {
